@@ -14,7 +14,8 @@ CHECKS = {
         text="Lean 4 proof (full): refinement theorem cf_refines_log - for every policy kind, arm list and finite history "
              "over fit/partial_fit/add_arm/remove_arm the learned record of every current arm is the documented statistic "
              "of exactly that arm's log since the last fit/add (running mean, UCB1 with current N, Softmax shares of the "
-             "current means summing to 1, Popularity means normalised to 1, Thompson 1+successes/1+failures). Tied to /repo "
+             "current means summing to 1, Popularity means normalised to 1, Thompson 1+successes/1+failures); facade_lp_is_trace lifts it to the public API "
+             "(the facade hands the policy exactly the accepted calls of any history). Tied to /repo "
              "by a correspondence check: the executable model and the real MAB are run on the same generated histories and "
              "must agree on predict_expectations, arms, every sampler request (kind, stream, parameters) and - after every step - on "
              "the state itself (abstraction of the real object graph = the model's state: sums, counts, means, stored expectations, "
